@@ -710,7 +710,8 @@ class ApiLpmRun:
     (ParMapDataset) and multi-worker `ds.prefetch(w, b)` (PrefetchDataset), iterated plainly or through
     `.items()`.  Judged by the oracles only (results, read-ahead bounds, clean stop)."""
 
-    def __init__(self, via, w, b, items, fn, stop_after, chooser, with_items):
+    def __init__(self, via, w, b, items, fn, stop_after, chooser, with_items, view=None):
+        self.view = view
         self.via, self.w, self.b, self.items = via, w, b, list(items)
         self.fn, self.stop_after, self.chooser, self.with_items = fn, stop_after, chooser, with_items
         self.delivered = []
@@ -745,6 +746,10 @@ class ApiLpmRun:
                     ds = base.map(pull_log).batch(1).batch_map(self.fn, num_workers=self.w, buffer_size=self.b)
                 else:
                     ds = base.map(pull_log).map(self.fn).prefetch(self.w, self.b)
+                if self.view == 'copy':                  # the stage consumed through a copy of itself
+                    ds = ds.copy()
+                elif self.view == 'freeze':
+                    ds = ds.copy(freeze=True)
                 it = iter(ds.items()) if (self.with_items and self.via == 'parmap') else iter(ds)
                 k = 0
                 try:
